@@ -32,15 +32,20 @@ def bindParams (env : Env) : List Param → Env
   | .name t :: rest => bindParams (bindTok env t t.text .param) rest
   | .dots t :: rest => bindParams (bindTok env t "..." .varargParam) rest
 
+variable [Core.NameFilter]
+
 /-- one counted read; `...` of the main chunk is not an occurrence the lints speak about -/
 def sRead (inF : Bool) (env : Env) (t : Tok) : List Ans :=
-  if inF = false ∧ t.text = "..." then [] else [.read t.idx (look env t.text)]
+  if inF = false ∧ t.text = "..." then []
+  else if Core.NameFilter.read t.text then [.read t.idx (look env t.text)] else []
+
+/-- a plain-name assignment target: it assigns a global when the name denotes no local -/
+def sAssign (env : Env) (t : Tok) : List Ans :=
+  if Core.NameFilter.assign t.text && (look env t.text).isNone then [.gassign t.idx] else []
 
 /-- one declaration: what its name denotes in the environment it is added to -/
-def sDecl [Core.NameFilter] (env : Env) (t : Tok) (name : String) : List Ans :=
+def sDecl (env : Env) (t : Tok) (name : String) : List Ans :=
   if Core.NameFilter.keep name then [.decl t.idx (look env name)] else []
-
-variable [Core.NameFilter]
 
 def sDeclAll (env : Env) (k : DeclKind) : List Tok → List Ans
   | [] => []
@@ -177,7 +182,7 @@ def sTargets (inF : Bool) (env : Env) : VarList → ExprList → List Ans
       | .cons e _ => eE inF env e
       | .nil => []) ++
     (match v with
-      | .name _ => []
+      | .name t => sAssign env t
       | .expr _ _ _ => eV inF env v) ++
     sTargets inF env rest (match es with | .cons _ es' => es' | .nil => .nil)
 def sElifs (inF : Bool) (env : Env) : ElseIfList → List Ans
@@ -210,7 +215,7 @@ def sStmt (inF : Bool) (env : Env) : Stmt → List Ans × Env
     match name.names with
     | [] => ([], env)
     | base :: more =>
-      ((if (!more.isEmpty || name.method.isSome) = true then sRead inF env base else []) ++
+      ((if (!more.isEmpty || name.method.isSome) = true then sRead inF env base else sAssign env base) ++
         sBody env name.method body, env)
   | .localFunc _ name body =>
     let env' := bindTok env name name.text .localFunc
